@@ -3,7 +3,7 @@
 
    Reference semantics of the cleanup constructs of Elvish (website/ref/language.md "tmp", "with";
    builtin `defer`), shaped like the interpreter: pkg/eval/closure.go Closure.Call (= Call),
-   frame.go runDefers (= RunDefers), builtin_special.go withOp.exec (= ExecWith), compile_lvalue.go
+   frame.go runDefers (= RunDefers), builtin_special.go withOp.exec (= the "with" case of ExecStmt + WithAssigns), compile_lvalue.go
    doAssign/save with a restore collector (= Assign + Thunk), builtin_fn_flow.go deferFn (= "defer").
 
    Programs are ASTs.  A block is a sequence of nodes [t, v, at, id, body]:
